@@ -132,7 +132,7 @@ func c10Check(m lkModel, rec *ev.Recorder) []harness.Viol {
 		rec.Inconclusive(err.Error())
 		return nil
 	}
-	res := lab.RunInProcess(dir, lab.Want{Diags: true})
+	res := lab.RunInProcess(dir, lab.Want{Diags: true, Versions: bothVersions, Engines: []string{"gin"}})
 	if res.Panic != "" {
 		rec.Label("gleece-panicked (reported under C14)", 1)
 		return nil
@@ -140,6 +140,19 @@ func c10Check(m lkModel, rec *ev.Recorder) []harness.Viol {
 	fd := flattenDiags(res.Diags)
 	codes := errorCodes(fd)
 	accepted := res.Accepted() && len(codes) == 0
+	// "never rejected" is about the command: a well-linked project must also get its spec and routes
+	generationFailure := ""
+	if accepted {
+		for _, v := range bothVersions {
+			if res.SpecErr[v] != nil {
+				generationFailure = "spec-" + v + "-failed"
+				rec.SetExtra("last_generation_failure", fmtErr(res.SpecErr[v]))
+			}
+		}
+		if res.RoutesErr["gin"] != nil {
+			generationFailure = "routes-failed"
+		}
+	}
 	var viols []harness.Viol
 	desc := fmt.Sprintf("perturbations=%v\n%s", applied, lkDescribe(ctrls))
 	var rules []string
@@ -148,6 +161,9 @@ func c10Check(m lkModel, rec *ev.Recorder) []harness.Viol {
 	}
 	sort.Strings(rules)
 	switch {
+	case expectOK && accepted && generationFailure != "":
+		viols = append(viols, harness.Viol{Signature: fmt.Sprintf("C10:spurious-reject:via=%s:%s", strings.Join(appliedKinds(applied), "+"), generationFailure),
+			Message: fmt.Sprintf("every route satisfies the link rules and validation passes, but generation fails (%s): %s\n%s", generationFailure, fmtErr(firstErr(res)), desc)})
 	case expectOK && accepted:
 		rec.Label("well-linked-accepted", 1)
 	case !expectOK && !accepted:
@@ -187,6 +203,15 @@ func c10Check(m lkModel, rec *ev.Recorder) []harness.Viol {
 		}
 	}
 	return viols
+}
+
+func firstErr(res *lab.Result) error {
+	for _, v := range bothVersions {
+		if res.SpecErr[v] != nil {
+			return res.SpecErr[v]
+		}
+	}
+	return res.RoutesErr["gin"]
 }
 
 func c10Classify(m lkModel) harness.Class {
